@@ -35,8 +35,13 @@ func adjust_lon(x float64) float64 {
 }
 
 func adjust_lat(x float64) float64 {
-	if math.Abs(x) < halfPi {
+	if math.Abs(x) <= halfPi {
 		return x
+	}
+	if math.Abs(x) < halfPi+epsln {
+		// The pole itself, or the pole exceeded by rounding error: not the
+		// opposite pole.
+		return sign(x) * halfPi
 	}
 	return (x - (sign(x) * math.Pi))
 }
